@@ -208,24 +208,29 @@ public:
     void setBestParticlePositions(const double bpp[]) {
         std::copy_n(bpp, num_dimensions * (num_particles + 1), best_particle_positions.begin());
         best_positions_initialized = true;
+        cache_initialized = false; // the cached values belong to the old best positions
     }
     //! \brief Sets the best position per particle.
     void setBestParticlePositions(const std::vector<double> &bpp) {
         checkVarSize("ParticleSwarmState::setBestParticlePositions", "best particle positions", bpp.size(), num_dimensions * (num_particles + 1));
         best_particle_positions = bpp;
         best_positions_initialized = true;
+        cache_initialized = false; // the cached values belong to the old best positions
     }
     //! \brief Sets the best position per particle, allows for a move.
     void setBestParticlePositions(std::vector<double> &&bpp) {
         checkVarSize("ParticleSwarmState::setBestParticlePositions", "best particle positions", bpp.size(), num_dimensions * (num_particles + 1));
         best_particle_positions = std::move(bpp);
         best_positions_initialized = true;
+        cache_initialized = false; // the cached values belong to the old best positions
     }
 
     //! \brief Clear the previously best known particle velocities.
     void clearBestParticles() {
         best_positions_initialized = false;
         std::fill(best_particle_positions.begin(), best_particle_positions.end(), 0.0);
+        std::fill(cache_best_particle_fvals.begin(), cache_best_particle_fvals.end(), std::numeric_limits<double>::max());
+        std::fill(cache_best_particle_inside.begin(), cache_best_particle_inside.end(), false);
     }
     //! \brief Clear the particle swarm cache.
     void clearCache() {
